@@ -3,7 +3,7 @@ package main
 // Verification harness for C27 (injected with `go test -overlay`; not part of the repository).
 // Drives the real handleProduceRouting / handleFetchRouting (called exactly as handleConnection calls
 // them) against scripted loopback TCP backends that record every sub-request they receive.  The routing
-// table is a real metadata.PartitionRouter fed through embedded etcd lease keys.  One ndjson line per
+// table is a real metadata.PartitionRouter whose map is written directly.  One ndjson line per
 // observable event: Start (inputs), Recv (a backend received a sub-request and what it answered),
 // Done (decoded reply handed to the client).
 
@@ -16,6 +16,7 @@ import (
 	"log/slog"
 	"net"
 	"os"
+	"reflect"
 	"regexp"
 	"sort"
 	"strconv"
@@ -23,12 +24,11 @@ import (
 	"syscall"
 	"testing"
 	"time"
+	"unsafe"
 
-	"github.com/KafScale/platform/internal/testutil"
 	"github.com/KafScale/platform/pkg/metadata"
 	"github.com/KafScale/platform/pkg/protocol"
 	"github.com/twmb/franz-go/pkg/kmsg"
-	clientv3 "go.etcd.io/etcd/client/v3"
 )
 
 type vfBehaviour struct {
@@ -282,77 +282,32 @@ func (b *vfBackend) handle(c net.Conn) {
 	}
 }
 
-// ---- routing table through a real PartitionRouter on embedded etcd ----
+// ---- routing table: a real metadata.PartitionRouter whose table is written directly ----
+//
+// LookupOwner and Invalidate are the real methods on the real struct; only the *feeding* of the table
+// (etcd load + watch, which is C20's subject) is replaced by writing the unexported map, so the check
+// needs no etcd, no goroutine and no real-time wait.
 
-type vfRouting struct {
-	t      *testing.T
-	cli    *clientv3.Client
-	router *metadata.PartitionRouter
-	etcd   map[string]string // what the harness last wrote per tp ("" = no key)
-	syncN  int
-}
-
-const vfLeasePrefix = "/kafscale/partition-leases"
-
-func (r *vfRouting) key(tp string) string {
-	topic, part := vfSplitTP(tp)
-	return fmt.Sprintf("%s/%s/%d", vfLeasePrefix, topic, part)
-}
-
-func (r *vfRouting) matches(want map[string]string) bool {
-	for _, tp := range vfAllTPs {
+func vfSetRoutes(t *testing.T, r *metadata.PartitionRouter, want map[string]string) {
+	routes := map[string]string{}
+	for tp, owner := range want {
+		if owner == "" {
+			continue
+		}
 		topic, part := vfSplitTP(tp)
-		if r.router.LookupOwner(topic, part) != want[tp] {
-			return false
+		routes[fmt.Sprintf("%s:%d", topic, part)] = owner // metadata.partitionKey
+	}
+	f := reflect.ValueOf(r).Elem().FieldByName("routes")
+	if !f.IsValid() || f.Kind() != reflect.Map {
+		t.Fatalf("metadata.PartitionRouter has no map field 'routes' any more: adapt the harness")
+	}
+	reflect.NewAt(f.Type(), unsafe.Pointer(f.UnsafeAddr())).Elem().Set(reflect.ValueOf(routes))
+	for _, tp := range vfAllTPs { // the key format is the router's business: verify through its own lookup
+		topic, part := vfSplitTP(tp)
+		if got := r.LookupOwner(topic, part); got != want[tp] {
+			t.Fatalf("router lookup of %s = %q after feeding %q: adapt the harness", tp, got, want[tp])
 		}
 	}
-	return true
-}
-
-// set makes the router's table equal to want (tp -> broker id, "" = no owner) and waits until the
-// router has applied it.  Outcome is deterministic; only the waiting is real time.
-func (r *vfRouting) set(want map[string]string) {
-	ctx := context.Background()
-	for round := 0; round < 15; round++ {
-		for _, tp := range vfAllTPs {
-			topic, part := vfSplitTP(tp)
-			cur := r.router.LookupOwner(topic, part)
-			if cur == want[tp] && r.etcd[tp] == want[tp] {
-				continue
-			}
-			var err error
-			if want[tp] == "" {
-				_, err = r.cli.Delete(ctx, r.key(tp))
-			} else {
-				_, err = r.cli.Put(ctx, r.key(tp), want[tp])
-			}
-			if err != nil {
-				r.t.Fatalf("etcd write: %v", err)
-			}
-			r.etcd[tp] = want[tp]
-		}
-		// sentinel: watch events are delivered in revision order, so once it is visible everything before it is applied
-		r.syncN++
-		val := strconv.Itoa(r.syncN)
-		if _, err := r.cli.Put(ctx, vfLeasePrefix+"/zzsync/0", val); err != nil {
-			r.t.Fatalf("etcd write: %v", err)
-		}
-		deadline := time.Now().Add(2 * time.Second)
-		for time.Now().Before(deadline) {
-			if r.router.LookupOwner("zzsync", 0) == val {
-				break
-			}
-			time.Sleep(200 * time.Microsecond)
-		}
-		if r.router.LookupOwner("zzsync", 0) == val && r.matches(want) {
-			return
-		}
-		// watch not established yet (events before it are not delivered) or table differs: write again
-		for _, tp := range vfAllTPs {
-			r.etcd[tp] = "?"
-		}
-	}
-	r.t.Fatalf("router did not converge to %v", want)
 }
 
 // ---- requests / replies ----
@@ -511,21 +466,8 @@ func TestVerifProxyFanoutReplay(t *testing.T) {
 		}
 	}
 
-	endpoints := testutil.StartEmbeddedEtcd(t)
-	cli, err := clientv3.New(clientv3.Config{Endpoints: endpoints, DialTimeout: 5 * time.Second})
-	if err != nil {
-		t.Fatal(err)
-	}
-	defer cli.Close()
 	logger := slog.New(slog.NewTextHandler(io.Discard, nil))
-	rctx, rcancel := context.WithCancel(context.Background())
-	defer rcancel()
-	router, err := metadata.NewPartitionRouter(rctx, cli, logger)
-	if err != nil {
-		t.Fatal(err)
-	}
-	defer router.Stop()
-	routing := &vfRouting{t: t, cli: cli, router: router, etcd: map[string]string{}}
+	router := &metadata.PartitionRouter{}
 
 	sc := bufio.NewScanner(f)
 	sc.Buffer(make([]byte, 1<<20), 1<<26)
@@ -561,7 +503,7 @@ func TestVerifProxyFanoutReplay(t *testing.T) {
 				routeLog[tp] = o
 			}
 		}
-		routing.set(want)
+		vfSetRoutes(t, router, want)
 
 		p := &proxy{
 			backends:       addrs,
